@@ -210,7 +210,7 @@ def cli_json(path, extra_args=()):
     return json.loads(buf.getvalue())
 
 
-def cli_judge(src, encoding=None):
+def cli_judge(src, encoding=None, bom=False):
     import cxxheaderparser.simple as simple
     from cxxheaderparser.errors import CxxParseError
 
@@ -220,8 +220,8 @@ def cli_judge(src, encoding=None):
         return "skip"
     fd, p = tempfile.mkstemp(suffix=".h", prefix="vfc20_")
     try:
-        with os.fdopen(fd, "w", encoding=encoding or "utf-8") as fp:
-            fp.write(src)
+        with os.fdopen(fd, "wb") as fp:
+            fp.write((b"\xef\xbb\xbf" if bom else b"") + src.encode(encoding or "utf-8"))
         try:
             got = cli_json(p, ("--encoding", encoding) if encoding else ())
         except SystemExit as e:
@@ -346,6 +346,11 @@ def run(tier):
         if r:
             body = ("from vf.props import c20\n" f"r = c20.encoding_judge({enc!r}, {bom!r})\nprint(r)\nsys.exit(1 if r else 0)\n")
             ck.violation(r, ck.write_replay(body), key=dict(kind="parse_file", what="encoding"))
+    r = cli_judge(ENC_TEXT, None, bom=True)
+    ck.traces += 1
+    if r:
+        body = ("from vf.props import c20\n" "r = c20.cli_judge(c20.ENC_TEXT, None, bom=True)\nprint(r)\nsys.exit(1 if r else 0)\n")
+        ck.violation("CLI on a UTF-8 file with byte-order mark (default encoding): " + r, ck.write_replay(body), key=dict(kind="cli", what="bom"))
     r = cli_judge(ENC_TEXT, "latin-1")
     if r:
         body = ("from vf.props import c20\n" "r = c20.cli_judge(c20.ENC_TEXT, 'latin-1')\nprint(r)\nsys.exit(1 if r else 0)\n")
